@@ -2,7 +2,7 @@
 From Coq Require Import String Ascii ZArith NArith List Bool Lia.
 From HV Require Import lib.Bytes lib.Obs lib.Monad model.Asgi model.AsgiSpec model.GuardTypes model.HttpStream model.WsStream model.StreamRig
      model.LibH11 model.H11Proto model.WorkerCtx gen.Consts_gen gen.Guards_gen
-     proofs.Stream_proofs proofs.LibH11_proofs proofs.H11_proofs proofs.WorkerCtx_proofs.
+     proofs.Stream_proofs proofs.LibH11_proofs proofs.H11_proofs proofs.WorkerCtx_proofs proofs.Serial_proofs proofs.Capped_proofs.
 Import ListNotations.
 Open Scope N_scope.
 
@@ -50,6 +50,50 @@ Theorem C06_close_announced : forall cfg p status hs, (200 <= status)%Z ->
       (hs ++ c_server_headers cfg ++ (if (c_max_requests cfg <=? p_requests p)%Z then [(B "connection", B "close")] else []))))).
 Proof. exact response_headers_sent. Qed.
 Print Assumptions C06_close_announced.
+
+(* Whole runs: the requests of a connection are served strictly one at a time.  Along every run of the protocol
+   from a fresh connection - any reads, any application behaviour, any failing writes, any point of termination -
+   the stream slot is never overwritten while it still holds a stream ("stream-replaced" is the ghost note the model
+   emits in _create_stream when self.stream is not None), unless the event oracle breaks the parser's contract
+   (an event h11's own state machine forbids in the state it is in; the correspondence check observes that the real
+   h11 never does). *)
+Theorem C06_one_request_at_a_time : forall cfg stream_headers ws_token ws_ext ws_sends sends writes inputs,
+  let outs := concat (map fst (proto_run cfg stream_headers ws_token ws_ext ws_sends (p_init sends writes) inputs)) in
+  In (ONote "h11-contract-violated") outs \/ ~ In (ONote "stream-replaced") outs.
+Proof. intros. apply serial_run, Serial_init. Qed.
+Print Assumptions C06_one_request_at_a_time.
+
+(* ... and the per-connection request maximum is never exceeded on any run (the same ghost-note form). *)
+Theorem C06_request_maximum_whole_run : forall cfg stream_headers ws_token ws_ext ws_sends sends writes inputs,
+  let outs := concat (map fst (proto_run cfg stream_headers ws_token ws_ext ws_sends (p_init sends writes) inputs)) in
+  In (ONote "h11-contract-violated") outs \/ ~ In (ONote "request-over-limit") outs.
+Proof. intros. apply capped_run, Capped_init. Qed.
+Print Assumptions C06_request_maximum_whole_run.
+
+Definition demo_cfg : h11cfg :=
+  {| c_http := {| cfg_server_names := []; cfg_ssl := false; cfg_trailers_versions := []; cfg_push_versions := []; cfg_hint_versions := [];
+                  cfg_guards := http_app_send_guards |};
+     c_ws := {| wc_http := {| cfg_server_names := []; cfg_ssl := false; cfg_trailers_versions := []; cfg_push_versions := [];
+                              cfg_hint_versions := []; cfg_guards := http_app_send_guards |};
+                wc_max_message := 100; wc_ping_interval := false; wc_guards := ws_app_send_guards |};
+     c_max_requests := 100; c_server_headers := [] |}.
+Definition demo_req := RH (HRequest (B "GET") (B "/") [(B "host", B "x")] (B "1.1")).
+Definition demo_outs (inputs : list (pinput)) : list out :=
+  concat (map fst (proto_run demo_cfg (fun h => h) (fun _ => []) None [] (p_init [] []) inputs)).
+Definition has_note (s : string) (o : list out) : bool :=
+  existsb (fun x => match x with ONote t => String.eqb s t | _ => false end) o.
+(* the ghost is live: an oracle that delivers a second Request while the first is being served (which h11 cannot do)
+   makes the model overwrite the slot, and both notes appear; the same two requests separated by a complete
+   response produce neither, and two applications are spawned one after the other *)
+Example C06_serial_nonvacuous :
+  let bad := demo_outs [IData [demo_req; demo_req]] in
+  has_note "h11-contract-violated" bad = true /\ has_note "stream-replaced" bad = true /\
+  let good := demo_outs [IData [demo_req; RH HEndOfMessage; RH HPaused];
+                         IApp (Some (MStart (Some 200%Z) [(HB (B "content-length"), HB (B "0"))] false)) [];
+                         IApp (Some (MBody (HB []) false)) [demo_req; RH HEndOfMessage; RH HNeedData]] in
+  has_note "h11-contract-violated" good = false /\ has_note "stream-replaced" good = false /\
+  spawns good = 2%nat.
+Proof. vm_compute. repeat split. Qed.
 
 Example C06_nonvacuous :
   (* a 1.1 request, a complete response: both DONE, the cycle restarts; with Connection: close it cannot *)
